@@ -47,7 +47,7 @@ func c04FreeRunB(sc *c04Scen, cancelAfter int, fam string, busy bool) (c04Obs, s
 	}
 	r.strict = &strict
 	c04FreeCount++
-	r.conn.cancelFails = c04FreeCount%4 == 3
+	r.conn.cancelFails = sc.cwf || c04FreeCount%4 == 3
 	r.distantDeadline = c04FreeCount%2 == 0
 	r.startDo(false)
 	// the caller always has a deadline: a server that goes silent must not hang the run
